@@ -354,6 +354,10 @@ pub fn stress(seed: u64, num_threads: usize, num_slots: usize, num_contents: i64
     let burst_arrive = Arc::new(std::sync::atomic::AtomicUsize::new(0));
     let burst_ids: Arc<Vec<std::sync::atomic::AtomicUsize>> = Arc::new((0..num_threads).map(|_| std::sync::atomic::AtomicUsize::new(0)).collect());
     let burst_split = Arc::new(std::sync::atomic::AtomicUsize::new(0));
+    // churn phase: one thread of a pair makes and drops a handle of a content over and over (its buffer dies again
+    // and again), the other makes two handles of the same content one after the other and compares their buffers
+    let churn_split = Arc::new(std::sync::atomic::AtomicUsize::new(0));
+    let churn_done: Arc<Vec<std::sync::atomic::AtomicBool>> = Arc::new((0..num_threads / 2 + 1).map(|_| std::sync::atomic::AtomicBool::new(false)).collect());
     // a panic inside the code under test (it would also poison the table lock) must not stall the run: it is
     // recorded, the partner of a pair is released, and the worker keeps meeting the barriers
     let abort = Arc::new(std::sync::atomic::AtomicBool::new(false));
@@ -368,6 +372,8 @@ pub fn stress(seed: u64, num_threads: usize, num_slots: usize, num_contents: i64
         let burst_arrive = burst_arrive.clone();
         let burst_ids = burst_ids.clone();
         let burst_split = burst_split.clone();
+        let churn_split = churn_split.clone();
+        let churn_done = churn_done.clone();
         handles.push(std::thread::spawn(move || {
             let mut rng = StdRng::seed_from_u64(seed * 1000 + t as u64);
             let mut slots: Vec<Option<SharedString>> = (0..num_slots).map(|_| None).collect();
@@ -406,6 +412,33 @@ pub fn stress(seed: u64, num_threads: usize, num_slots: usize, num_contents: i64
                 } else {
                     for s in slots.iter_mut() {
                         *s = None;
+                    }
+                    // churn: while the first handle is alive the second must be the same buffer, whatever the partner's
+                    // last releases of that content do to the table in between (Dedup)
+                    if (t | 1) < num_threads {
+                        use std::sync::atomic::Ordering::SeqCst;
+                        let pair = t / 2;
+                        let content: Vec<u8> = format!("churn-content-{}", pair).into_bytes();
+                        if t % 2 == 0 {
+                            while !churn_done[pair].load(SeqCst) && !abort.load(SeqCst) {
+                                let h = SharedString::new(content.clone());
+                                drop(h);
+                            }
+                        } else {
+                            for _ in 0..(pair_drops / 5) {
+                                if abort.load(SeqCst) {
+                                    break;
+                                }
+                                let a = SharedString::new(content.clone());
+                                let b = SharedString::new(content.clone());
+                                if a.verif_buffer_id() != b.verif_buffer_id() {
+                                    churn_split.fetch_add(1, SeqCst);
+                                }
+                                drop(b);
+                                drop(a);
+                            }
+                            churn_done[pair].store(true, SeqCst);
+                        }
                     }
                     // burst: every thread interns the same content, fresh for this iteration, at the same moment and
                     // keeps the handle until all have one: live handles with equal contents - one buffer (Dedup)
@@ -532,6 +565,7 @@ pub fn stress(seed: u64, num_threads: usize, num_slots: usize, num_contents: i64
         emit(out, &ep, json!({"op": "observe", "round": round, "final": round == rounds, "post": post,
                               "pair_stale": pair_stale.load(std::sync::atomic::Ordering::SeqCst),
                               "burst_split": burst_split.load(std::sync::atomic::Ordering::SeqCst),
+                              "churn_split": churn_split.load(std::sync::atomic::Ordering::SeqCst),
                               "data_errors": bad.lock().unwrap().clone()}));
         barrier.wait();
     }
